@@ -62,8 +62,12 @@ def constants_of(text):
 def make_instances(rng, preds, text, n):
     import gen
     nums, ids = constants_of(text)
-    vals = sorted(set(nums + ["1", "2", "3"]), key=lambda x: int(x))
-    mixes = [vals[:5], ["0", "-1", "2", "5"], vals[:3] + ids[:1], ["1", "2", "4", "7", "-3"], ["1"], vals[-4:]]
+    near = set()
+    for x in nums:
+        near.update([str(int(x) - 1), str(int(x) + 1)])
+    vals = sorted(set(nums + ["1", "2", "3"]) | (near if rng.random() < 0.5 else set()), key=lambda x: int(x))
+    mixes = [vals[:5], ["0", "-1", "2", "5"], vals[:3] + ids[:1], ["1", "2", "4", "7", "-3"], ["1"], vals[-4:],
+             rng.sample(vals, min(len(vals), 4)), ["-2", "2", "3", "5"]]
     out = [""]
     preds = sorted(preds)
     for k in range(n - 1):
@@ -102,11 +106,9 @@ def make_instances(rng, preds, text, n):
 def run_optimize(text, inp, outp, flags, trace=None):
     """returns (result statements, None) or (None, error string)"""
     import ngo.api
-    from ngo import auto_detect_input, auto_detect_output, optimize
-    from ngo.utils.ast import Predicate
+    from ngo import optimize
     prg = parse(text)
-    i = auto_detect_input(prg) if inp == "auto" else [Predicate(n, a) for n, a in inp]
-    o = auto_detect_output(prg) if outp == "auto" else [Predicate(n, a) for n, a in outp]
+    i, o = resolve_declarations(prg, text, inp, outp)
     old = signal.signal(signal.SIGALRM, _alarm)
     signal.alarm(OPT_TIMEOUT)
     try:
@@ -121,6 +123,35 @@ def run_optimize(text, inp, outp, flags, trace=None):
         signal.alarm(0)
         signal.signal(signal.SIGALRM, old)
         ngo.api.VERIF_HOOK = None
+
+
+def resolve_declarations(prg, text, inp, outp):
+    """'auto' = ngo's own detection; ('auto+', seed) = detected inputs plus a seed-chosen subset of the head predicates
+    (the property allows any IN that contains the predicates without rules); ('random', seed) = a seed-chosen subset of
+    the program's predicates as OUT"""
+    import astspec
+    from ngo import auto_detect_input, auto_detect_output
+    from ngo.utils.ast import Predicate
+    if inp == "auto":
+        i = auto_detect_input(prg)
+    elif isinstance(inp, (list, tuple)) and len(inp) == 2 and inp[0] == "auto+":
+        rng = random.Random(f"in:{inp[1]}:{text}")
+        heads = set()
+        for s in prg:
+            heads.update(astspec.pos_head(s))
+        extra = [Predicate(n, a) for n, a in sorted(heads) if rng.random() < 0.4]
+        i = list(auto_detect_input(prg))
+        i += [p for p in extra if p not in i]
+    else:
+        i = [Predicate(n, a) for n, a in inp]
+    if outp == "auto":
+        o = auto_detect_output(prg)
+    elif isinstance(outp, (list, tuple)) and len(outp) == 2 and outp[0] == "random":
+        rng = random.Random(f"out:{outp[1]}:{text}")
+        o = [Predicate(n, a) for n, a in sorted(predicates_of(prg)) if rng.random() < 0.5]
+    else:
+        o = [Predicate(n, a) for n, a in outp]
+    return i, o
 
 
 def text_of(stms):
@@ -214,17 +245,29 @@ def minimise(rec, max_steps=60):
     import re
     best = rec
 
+    # declarations are frozen to what the failing run actually used, so they do not drift while the program shrinks
+    fixed_in = [tuple(x) for x in rec.get("IN", [])] if rec.get("inp") != "auto" else "auto"
+    fixed_out = [tuple(x) for x in rec.get("OUT", [])] if rec.get("outp") != "auto" else "auto"
+
     def fails(program, instance):
-        c = {"program": program, "inp": best["inp"], "outp": best["outp"], "flags": best["flags"], "relation": best["relation"],
+        c = {"program": program, "inp": fixed_in, "outp": fixed_out, "flags": best["flags"], "relation": best["relation"],
              "seed": best["seed"], "instances": [instance], "label": best.get("label")}
-        if best["inp"] != "auto":
-            c["inp"] = best["inp"]
         try:
             r = evaluate_case(c)
         except Exception:  # noqa
             return None
-        return r if r["status"] in ("mismatch", "broken-result") else None
+        if r["status"] not in ("mismatch", "broken-result"):
+            return None
+        # never drift into the territory of a known defect while shrinking: a candidate that falsifies a hypothesis the
+        # current input satisfies fails for a different reason and is rejected
+        import hyp
+        k = hyp.falsified(program, best["flags"], r)
+        if base_keys[0] is not None and not k <= base_keys[0]:
+            return None
+        r["_keys"] = k
+        return r
 
+    base_keys = [None]
     steps = 0
     stms = [str(s) for s in parse(best["program"])]
     stms = [s for s in stms if s != "#program base."]
@@ -233,6 +276,7 @@ def minimise(rec, max_steps=60):
     if r0 is None:
         return best
     best = r0
+    base_keys[0] = r0["_keys"]
     changed = True
     while changed and steps < max_steps:
         changed = False
@@ -244,6 +288,7 @@ def minimise(rec, max_steps=60):
             r = fails("\n".join(cand), inst)
             if r is not None:
                 stms, best, changed = cand, r, True
+                base_keys[0] = r["_keys"]
                 break
         if changed:
             continue
@@ -254,6 +299,7 @@ def minimise(rec, max_steps=60):
             r = fails("\n".join(stms), cand)
             if r is not None:
                 inst, best, changed = cand, r, True
+                base_keys[0] = r["_keys"]
                 break
     best["minimised"] = True
     return best
